@@ -19,8 +19,8 @@ theorem src_prune_clamped_to_tip :
 
 /-- inside the loop: best index at the height, stop if absent; body, stop if absent; prune -/
 theorem src_prune_loop_body :
-    hasInfix [isCall "m.store.BestIndex", (· == .ifc [] ["!"]), (· == .brk), (· == .els),
-      isCall "m.store.Block", (· == .ifc [] ["!"]), (· == .brk), (· == .done), (· == .done),
+    hasInfix [isCall "m.store.BestIndex", (· == .ifc [] ["!"]), (· == .brk), (· == .done),
+      isCall "m.store.Block", (· == .ifc [] ["!"]), (· == .brk), (· == .done),
       isCall "m.store.PruneBlock", (· == .done)] skel_PruneBlocks = true := by decide
 
 /-- the only store write is `PruneBlock`; the tip and every other manager field are untouched;
